@@ -10,6 +10,11 @@ RANDOM = [
     ['gb:2:11,gb:2:12', 'gb:1:21,gb:4:22', 'gtal:8:31', 'gtal:9:41,pb:42'],        # embedded table (3 pointers) -> long table switch
     ['gb:7:11,gb:8:12', 'gb:9:21,gb:1:22', 'gb:16:31,gtal:40:32'],
     ['gtal:3:11,gb:15:12', 'gtal:17:21', 'gb:17:31,pb:32'],
+    # the switch from the embedded to the long segment table while a first block of >= 4 segments is still being allocated: the thread that is told "somebody else
+    # extends the table" must reload the table pointer
+    ['gb:1:11,pb:12', 'gb:20:21'],
+    ['gb:8:11', 'pb:21,pb:22', 'gb:10:31'],
+    ['gb:2:11,gb:7:12', 'gb:12:21', 'pb:31,gb:3:32'],
 ]
 FAULT = [('ctor', 12, 'pb:1,pb:2,pb:3,pb:4,pb:5,gb:100:7'), ('ctor', 6, 'gb:20:1,gb:200:2'), ('ctor', 20, 'pb:1,gb:5:2,gb:9:3'), ('alloc', 6, 'pb:1,gb:5:2,gb:9:3,gb:20:4'), ('ctor', 12, 'gb:3:1,gtal:12:2'), ('alloc', 5, 'gtal:20:1,pb:2'),
          ('ctor', 30, 'gb:2:1,gb:2:2,gb:30:3'), ('alloc', 8, 'pb:1,pb:2,pb:3,gb:6:4,gb:40:5')]
